@@ -19,6 +19,7 @@ func init() {
 }
 
 func runC13(cx *ctx) {
+	armorTrailCases(cx, "c13-", false, true)
 	r := cx.rng
 	// destination faults
 	sizes := []int{0, 1, 100, C, C + 1, 2*C + 3}[:cx.n(4, 6)]
